@@ -136,7 +136,7 @@ func vfC01Run(t *testing.T, k *vfKit, c vfC01Case) {
 		}
 
 		states := make([]*vfC01ConnState, len(c.Conns))
-		var wg sync.WaitGroup
+		connDone := make(chan struct{}, len(c.Conns)) // channels, not WaitGroups: always durably blocking in a bubble
 		for i := range c.Conns {
 			cs := c.Conns[i]
 			st := &vfC01ConnState{}
@@ -160,10 +160,10 @@ func vfC01Run(t *testing.T, k *vfKit, c vfC01Case) {
 					st.mu.Unlock()
 				}
 			}()
-			wg.Add(1)
 			go func() {
-				defer wg.Done()
-				var inner sync.WaitGroup
+				defer func() { connDone <- struct{}{} }()
+				innerDone := make(chan struct{}, 64)
+				innerN := 0
 				for _, a := range cs.Actions {
 					addr := fmt.Sprintf("c%dx%d.verif:%d", cs.K, a.N, 1000+a.N)
 					switch a.Kind {
@@ -199,9 +199,9 @@ func vfC01Run(t *testing.T, k *vfKit, c vfC01Case) {
 						go func() { done <- raw.AuthReq(cred, "0") }()
 						time.Sleep(time.Duration(3*c.LatencyMs+5) * time.Millisecond)
 						if s, err := raw.ProxyStream(fmt.Sprintf("c%dx%d.verif:%d", cs.K, 100+a.N, 80)); err == nil {
-							inner.Add(1)
+							innerN++
 							go func() {
-								defer inner.Done()
+								defer func() { innerDone <- struct{}{} }()
 								b, _ := vfReadSome(s, 500*time.Millisecond)
 								st.mu.Lock()
 								st.streamBytes += int64(len(b))
@@ -231,9 +231,9 @@ func vfC01Run(t *testing.T, k *vfKit, c vfC01Case) {
 							continue
 						}
 						_, _ = s.Write([]byte("payload-for-" + addr))
-						inner.Add(1)
+						innerN++
 						go func() {
-							defer inner.Done()
+							defer func() { innerDone <- struct{}{} }()
 							b, _ := vfReadSome(s, 400*time.Millisecond)
 							st.mu.Lock()
 							st.streamBytes += int64(len(b))
@@ -259,10 +259,14 @@ func vfC01Run(t *testing.T, k *vfKit, c vfC01Case) {
 					}
 					time.Sleep(time.Duration(1+a.N%3) * time.Millisecond)
 				}
-				inner.Wait()
+				for ; innerN > 0; innerN-- {
+					<-innerDone
+				}
 			}()
 		}
-		wg.Wait()
+		for range c.Conns {
+			<-connDone
+		}
 		time.Sleep(1 * time.Second) // virtual settle: several RTTs
 		synctest.Wait()
 		evs := w.Log.Snapshot()
